@@ -553,6 +553,67 @@ func TestMalformedOperandTable(t *testing.T) {
 	evid.Exhaustive("malformed atom x operand position x parenthesis depth", n)
 }
 
+// TestRepetitionAndSize: the same (malformed or valid) statement repeated k times, k across small counts and the
+// powers of two, and texts of growing size up to several MiB (a limit on the number of recorded errors, on the
+// nesting depth or on the text size must still end in a tree or a positioned diagnostic - and must not disturb the
+// parse that follows).
+func TestRepetitionAndSize(t *testing.T) {
+	stmts := []string{"x = 1 / 0", "x = 1 % 0", "a = [1e, 1e]", "y = 0x", "z = \"\\q\"", "x = (", "f(", "a = = 1", "x = 1", "f(a, b)", "if a { b = 1 }", "x = 1..2", "a[", "-", "x = a in", "k = {\"a\": }"}
+	seps := []string{"\n", "\n\n", " ", ";", "\r\n"}
+	counts := []int{2, 3, 5, 8, 9, 10, 11, 12, 13, 16, 17, 20, 31, 32, 33, 50, 64, 65, 100, 128, 129, 200, 256, 257, 500, 1000}
+	n := 0
+	for si, st := range stmts {
+		for _, k := range counts {
+			for pi, sep := range seps {
+				if (si+pi)%evid.NShards() != evid.Shard() {
+					continue
+				}
+				if k > 200 && pi > 1 {
+					continue
+				}
+				one(t, "repeat", "repeated-statement", strings.Repeat(st+sep, k))
+				// the same with one valid statement in front and behind
+				one(t, "repeat", "repeated-statement", "v = 1\n"+strings.Repeat(st+sep, k)+"w = 2")
+				n += 2
+			}
+		}
+	}
+	// errors spread over the operands of one expression / the elements of one literal
+	for _, k := range counts {
+		if k > 300 {
+			continue
+		}
+		one(t, "repeat", "repeated-operand", "x = "+strings.Repeat("1 / 0 + ", k)+"1")
+		one(t, "repeat", "repeated-operand", "x = ["+strings.Repeat("1 % 0, ", k)+"1]")
+		one(t, "repeat", "repeated-operand", "f("+strings.Repeat("1e, ", k)+"1)")
+		one(t, "repeat", "repeated-operand", "x = "+strings.Repeat("(", k)+"1 / 0"+strings.Repeat(")", k))
+		n += 4
+	}
+	// size: valid and invalid texts from 64 KiB to beyond 4 MiB and 8 MiB, each followed by a small parse
+	if evid.Shard() == 0 {
+		line := "add_key(some_key_name, \"a value that makes the line a bit longer\") # comment\n"
+		for _, size := range []int{1 << 16, 1 << 20, 1<<22 - 100, 1<<22 + 1, 1<<22 + 70000, 1<<23 + 5} {
+			for _, tail := range []string{"", "x = = 1", "\"unterminated"} {
+				src := strings.Repeat(line, size/len(line)+1)[:size-len(tail)] + tail
+				if i := strings.LastIndex(src[:len(src)-len(tail)], "\n"); tail != "" && i > 0 {
+					src = src[:i+1] + strings.Repeat(" ", len(src)-len(tail)-i-1) + tail
+				}
+				one(t, "size", "large-text", src)
+				one(t, "size", "after-large-text", "x = 1\nf(x)")
+				one(t, "size", "after-large-text", "x = [")
+				n += 3
+			}
+		}
+		// one very long line, one very long string literal, one very long identifier list
+		one(t, "size", "large-text", "x = \""+strings.Repeat("ab\\n", 1<<20)+"\"")
+		one(t, "size", "large-text", "x = ["+strings.Repeat("1, ", 1<<19)+"1]")
+		one(t, "size", "large-text", strings.Repeat("a = 1; ", 1<<18))
+		one(t, "size", "after-large-text", "x = 1")
+		n += 4
+	}
+	evid.Exhaustive("statement x separator x repetition count; error-per-operand chains; text sizes to 8 MiB", n)
+}
+
 // TestMalformedLeaves: a generated valid program in which one leaf token is replaced by a malformed atom.
 func TestMalformedLeaves(t *testing.T) {
 	rk.Check(t, "badleaf", 8, evid.Scale(4000, 60000), func(t *rapid.T) {
